@@ -194,6 +194,16 @@ def run(ctx, chk):
                                    {"Some(Some)": "Ok(clone)", "Some(None)": "Err(AmbiguousCodon)", "None": "Err(AmbiguousCodon)"})
 
 
+    _imports(chk, ctx)
+
+def _imports(chk, ctx):
+    import core
+    for cfg in ctx.configs(need_all_features=True):
+        chk.cfg = cfg.name
+        # a row matches a codon when row.codon.contains(codon): the subset test is C12's G-contains rows (and the IUPAC set tables)
+        core.import_rows(chk, cfg, "C12", "props.C12", ("G-contains", "S-bitops", "T-"))
+
+
 def check_search(chk, cfg, b, paths, table_term, row_sel=(0, 1)):
     what = "Standard::try_to_amino"
     L3 = cmp(L(P(2)), "Eq", c(3))
